@@ -116,7 +116,7 @@ def run(ctx):
                         "reachable objects are collected by an independent walk over declared fields; tags are identified by (term label, value)",
                         "members of a collection's top-level lists are distinct"]
     ctx.must_monitors += ["document_checker", "adapter_invariant", "single_pass_load"]
-    ctx.must_reach += ["io/aoef/adapters.py::DataAdapter.to_aoef", "io/aoef/adapters.py::DataAdapter.values", "io/aoef/sequence.py::SequenceAdapter.assemble_aoef"]
+    ctx.must_reach += ["?io/aoef/adapters.py::DataAdapter.to_aoef", "?io/aoef/adapters.py::DataAdapter.values", "?io/aoef/sequence.py::SequenceAdapter.assemble_aoef", "io/aoef/__init__.py::to_aeof"]
     for kind, s in [("prediction_set", 2), ("evaluation_set", 3), ("annotation_project", 5), ("evaluation", 7)]:
         judge(ctx, kind, s, {"p_opt": 1.0, "p_share": 0.3, "size": 2})
     n = ctx.scale(110, 300)
